@@ -467,7 +467,7 @@ func fatalKind(out string) string {
 	return "unknown"
 }
 
-var frameRe = regexp.MustCompile(`(?m)^  (github\.com/clbanning/mxj/v2[^\s(]*)\(`)
+var frameRe = regexp.MustCompile(`(?m)^  (github\.com/clbanning/mxj/v2\S*?)\(\)$`)
 
 // raceKey deduplicates race reports by the pair of innermost mxj frames of the two accesses.
 func raceKey(blk string) string {
